@@ -133,6 +133,12 @@ def fixed_schemas():
         cur({"n1": {"type": "nested", "properties": {"o": {"properties": {
             "g": TX, "n2": {"type": "nested", "properties": {"h": TX}}}}}}}),
         cur({"n1": {"type": "nested", "properties": {"n2": {"type": "nested", "properties": {"h": TX}}}}}),
+        # not F12: the nested field has a leaf of its own, and an object (with leaves) that leads to a deeper
+        # nested field: the object's leaves belong to n1, not to a nested path "n1.o"
+        cur({"n1": {"type": "nested", "properties": {"l": KW, "o": {"type": "object", "properties": {
+            "g": KW, "n2": {"type": "nested", "properties": {"h": TX}}}}}}}),
+        cur({"n1": {"type": "nested", "properties": {"l": TX, "o": {"properties": {
+            "g": TX, "p": {"properties": {"q": KW, "n2": {"type": "nested", "properties": {"h": KW}}}}}}}}}),
         cur({"n1": {"type": "nested", "properties": {"g": KW, "n2": {"type": "nested", "properties": {"h": TX}}}}}),
         cur({"o": {"type": "object", "properties": {"n": {"type": "nested", "properties": {"h": TX}}, "k": KW}}}),
         cur({"o": {"properties": {"k": KW, "t": TX, "p": {"properties": {"n": {"type": "nested", "properties": {
